@@ -38,6 +38,22 @@ def handle (op : String) (j : Json) : Option (R Json) :=
   | "pad3" => some do
       let a ← intCube j; let t ← getInts j "to"
       pure (okJ (cubeJ (pad3 a t[0]! t[1]!)))
+  | "window" => some do
+      let a ← intArr j
+      let sh ← match optVal j "to" with
+        | some (.arr v) => do let t ← v.mapM (·.getInt?); pure (some (t[0]!, t[1]!))
+        | _ => pure none
+      let sl ← match optVal j "slice" with
+        | some (.arr v) => do let t ← v.mapM (·.getInt?); pure (some (t[0]!, t[1]!, t[2]!, t[3]!))
+        | _ => pure none
+      match window a sh sl with
+      | .error e => pure (errJ e)
+      | .ok r => pure (okJ (arrJ r))
+  | "window3" => some do
+      let a ← intCube j; let t ← getInts j "to"
+      match window3Shape a t[0]! t[1]! with
+      | .error e => pure (errJ e)
+      | .ok r => pure (okJ (cubeJ r))
   | "subarray" => some do
       let a ← intArr j; let s ← getInts j "sub"; let o ← getInts j "shift"
       match subarray a s[0]! s[1]! o[0]! o[1]! with
@@ -64,7 +80,10 @@ def handle (op : String) (j : Json) : Option (R Json) :=
   | "centroid" => some do
       let a ← intArr j
       let c := centroidNum a
-      pure (okJ [("num", ints #[c.1, c.2.1, c.2.2])])
+      -- the regenerated `util.centroid` (Gen.centroid through Model `centroidRC`) run at Float on the same data
+      let af : Arr Float := { s0 := a.s0, s1 := a.s1, get := fun i jj => Float.ofInt (a.get i jj) }
+      let rc := centroidRC af
+      pure (okJ [("num", ints #[c.1, c.2.1, c.2.2]), ("rc", floatsJ [rc.1, rc.2])])
   | "hex_ring" => some do
       let k ← getNat j "k"
       pure (okJ [("cells", Json.arr ((hexRing k).map cellJ).toArray)])
